@@ -236,6 +236,7 @@ def main(argv):
         for f in viol:
             by_sig.setdefault(f["sig"], []).append(f)
         nviol = 0
+        not_reproduced = 0
         for sig, fl in sorted(by_sig.items()):
             f = min(fl, key=lambda x: len(json.dumps(x["case"])))
             # determinism: the failing case must fail again, with the same signature, in a fresh process
@@ -252,7 +253,8 @@ def main(argv):
                     f"HARNESS-ERROR: failure [{sig}] did not reproduce in a fresh process "
                     f"(the case passes there); not reported as a violation"
                 )
-                return 2
+                not_reproduced += 1
+                continue
             if not any(x["sig"] == sig for x in rr["failures"]):
                 # the case fails again, only differently classified (e.g. a wild seek that reads other garbage)
                 print(f"  note: in a fresh process the case of [{sig}] fails as {sorted({x['sig'] for x in rr['failures']})}")
@@ -299,7 +301,9 @@ def main(argv):
         for k in sorted(extra):
             if isinstance(extra[k], (int, float, str, bool)):
                 print(f"  {k}={extra[k]}")
-        return 1 if nviol else 0
+        if nviol:
+            return 1
+        return 2 if not_reproduced else 0
     finally:
         shutil.rmtree(workdir, ignore_errors=True)
 
